@@ -111,12 +111,30 @@ fn c08_eval(ctx: &mut Ctx, known: &Known, members: &[Yaml], docs: &[Yaml], tag: 
     }
     let mut known_hits = 0;
     for (name, det, table) in forms {
-        let c = case_of(det, docs.to_vec(), vec![0]);
+        let c = case_of(det, docs.to_vec(), vec![0, 2, 15]);
         let (ex, p) = run_rule_case(ctx, &c, false);
         let p = match p {
             Some(p) if p.load == "ok" => p,
             _ => continue,
         };
+        // optimised forms: a count that changes only after optimisation is reported here when the
+        // model does not reproduce it (otherwise it is a C01 finding, decided by the C01 check)
+        if !ex.agree {
+            for mask in [2u64, 15] {
+                let gv = verdicts_of(&p, mask);
+                for j in 0..docs.len() {
+                    let want = table(&col(j)) == Tri::T;
+                    if gv.get(j).copied() != Some(want) {
+                        let ry = rule_yaml(&c);
+                        ctx.violation(
+                            "oracle",
+                            &format!("{} {} (optimised, mask {}): members {:?}: document {} gives {:?}, the written-out rule gives {}", tag, name, mask, members, serde_yaml::to_string(&docs[j]).unwrap_or_default().replace('\n', " "), gv.get(j), want),
+                            &ex, &ry, true);
+                        break;
+                    }
+                }
+            }
+        }
         let got = verdicts_of(&p, 0);
         let tri: Vec<String> = p.masks[0].res.iter().map(|(t, _)| t.clone()).collect();
         for j in 0..docs.len() {
@@ -416,7 +434,15 @@ pub fn run_c12(ctx: &mut Ctx, _known: &Known) {
     let mut fresh = Driver::spawn_cmd(&std::env::current_exe().unwrap().to_string_lossy(), &["serve"]).expect("serve");
     for i in 0..n {
         let mut r = Rng::new(ctx.seed.wrapping_mul(613).wrapping_add(i as u64));
-        let c = gen_case(&mut r, vec![0, 15, 10, 7], 5);
+        let mut c = gen_case(&mut r, vec![0, 15, 10, 7], 5);
+        if i % 4 == 0 {
+            // long needle lists: the per-needle counting paths keep per-call state
+            let (det, mut docs) = gen::gen_special_kind(&mut r, 2);
+            while docs.len() < 5 {
+                docs.push(gen::gen_doc(&mut r));
+            }
+            c = CaseReq { optimised: false, det, tps: vec![], tns: vec![], docs, masks: vec![0, 15, 10, 7] };
+        }
         let (ex, parsed) = run_rule_case(ctx, &c, false);
         let p = match parsed {
             Some(p) if p.load == "ok" => p,
@@ -475,6 +501,36 @@ pub fn run_c12(ctx: &mut Ctx, _known: &Known) {
                     ctx.violation("oracle", "a matching thread panicked", &ex, &ry, true);
                     break;
                 }
+            }
+        }
+        // (c') one thread, documents matched backwards and then repeatedly: same verdicts
+        {
+            let n = docs.len();
+            let mut back = vec![false; n];
+            for j in (0..n).rev() {
+                back[j] = shared.matches(&docs[j]);
+            }
+            let mut again = vec![false; n];
+            for _ in 0..2 {
+                for j in 0..n {
+                    again[j] = shared.matches(&docs[j]);
+                }
+            }
+            if back != expect || again != expect {
+                ctx.violation("oracle", &format!("verdicts depend on which documents were matched before: first pass {:?}, backwards {:?}, repeated {:?}", expect, back, again), &ex, &ry, true);
+            }
+        }
+        // (c'') every document matched in isolation on a brand-new thread (no earlier matches there)
+        {
+            let mut isolated = vec![];
+            for j in 0..docs.len() {
+                let rl = Arc::clone(&shared);
+                let ds = Arc::clone(&docs);
+                let h = std::thread::spawn(move || rl.matches(&ds[j]));
+                isolated.push(h.join().unwrap_or(false));
+            }
+            if isolated != expect {
+                ctx.violation("oracle", &format!("a verdict depends on which documents were matched before on the same thread: in isolation {:?}, after other documents {:?}", isolated, expect), &ex, &ry, true);
             }
         }
         // (d) matching does not modify the rule: the printed rule is unchanged afterwards
